@@ -185,4 +185,30 @@ theorem forIter_push_spec (X : Ctx) (hq : ∀ k, X.o.panicAt k = false) :
         | stopped p s' hv hb =>
           exact .inr ⟨p, s', acc, rfl, hb, by rw [hv]; exact h⟩
 
+theorem mapM_loop_mkElem (vals : List Int) : ∀ (acc : List Elem) (s : St),
+    ∃ es, List.mapM.loop VM.mkElem vals acc s =
+        (.ok (acc.reverse ++ es), { s with sys := { s.sys with nextId := s.sys.nextId + vals.length } }) ∧
+      es.map (·.val) = vals := by
+  induction vals with
+  | nil => intro acc s; exact ⟨[], by simp [List.mapM.loop, VM.pure_run], rfl⟩
+  | cons v rest ih =>
+    intro acc s
+    obtain ⟨es, hr, hvals⟩ := ih (⟨s.sys.nextId, v⟩ :: acc) { s with sys := { s.sys with nextId := s.sys.nextId + 1 } }
+    refine ⟨⟨s.sys.nextId, v⟩ :: es, ?_, by simp [hvals]⟩
+    simp only [List.mapM.loop, VM.bind_run, mkElem_run, hr]
+    simp [Nat.add_assoc, Nat.add_comm 1]
+
+/-- creating a batch of fresh elements only advances the identity counter -/
+theorem mapM_mkElem_exact (vals : List Int) (s : St) :
+    ∃ es, vals.mapM VM.mkElem s = (.ok es, { s with sys := { s.sys with nextId := s.sys.nextId + vals.length } }) ∧
+      es.map (·.val) = vals := by
+  obtain ⟨es, hr, hvals⟩ := mapM_loop_mkElem vals [] s
+  exact ⟨es, by simpa [List.mapM] using hr, hvals⟩
+
+theorem mapM_mkElem_run (vals : List Int) (s : St) :
+    ∃ es s', vals.mapM VM.mkElem s = (.ok es, s') ∧ s'.v = s.v ∧ es.map (·.val) = vals := by
+  obtain ⟨es, hr, hvals⟩ := mapM_mkElem_exact vals s
+  exact ⟨es, _, hr, rfl, hvals⟩
+
+
 end MV
